@@ -261,10 +261,34 @@ def _r1(ctx):
                 if n2.rsplit("::", 1)[-1] in ("unwrap_or", "or", "unwrap_or_else", "or_else"):
                     xs = [norm(x) for x in T.call_args(b2)]
                     if any(y[0] == "field" and y[2] == intf_f for y in subterms(xs[0])) and any(
-                            (y[0] == "field" and y[2] == conf_f) or (y[0] == "agg" and y[1].startswith("closure:")) for x in xs[1:] for y in subterms(x)):
+                            (y[0] == "field" and y[2] == conf_f) or (y[0] == "agg" and y[1].startswith("closure:")) or
+                            (y[0] == "call" and str(y[1]).endswith("Vec::<T>::new")) for x in xs[1:] for y in subterms(x)):
                         srcs_i = True
                         inner = xs[1:]
                         srcs_c = any(y[0] == "field" and y[2] == conf_f for x in inner for y in subterms(x))
+            if srcs_i and not srcs_c:
+                # the default list filled by hand: `let mut v = Vec::new(); for x in &config.<list> { .. v.push(..) }`
+                for x in inner:
+                    x = norm(x)
+                    if x[0] == "call" and str(x[1]).endswith("Vec::<T>::new") and len(x) > 3:
+                        made = x[3]
+                        vl = b.blocks[made]["term"]["dest"][0] if b.blocks[made]["term"] and b.blocks[made]["term"]["k"] == "call" else None
+                        holders = {vl}
+                        for _ in range(3):
+                            for _, _, st2 in b.stmts():
+                                rv2 = st2.get("rv")
+                                if rv2 and rv2["k"] == "use" and op_place(rv2["op"]) and len(op_place(rv2["op"])) == 1 and len(st2["p"]) == 1:
+                                    if st2["p"][0] in holders:
+                                        holders.add(op_place(rv2["op"])[0])
+                                    if op_place(rv2["op"])[0] in holders:
+                                        holders.add(st2["p"][0])
+                        for b3, t3 in b.calls():
+                            if (callee_name(t3) or "").endswith("::push") and t3["args"]:
+                                bp = borrowed_place(T, t3["args"][0], b3, len(b.blocks[b3]["stmts"]))
+                                if bp is not None and bp[0] in holders:
+                                    pv = norm(T.call_args(b3)[1])
+                                    if any(y[0] == "field" and y[2] == conf_f for y in subterms(pv)):
+                                        srcs_c = True
             ctx.check(srcs_i and srcs_c, "R1", "option:%s<-interface.%s|config.%s" % (var, intf_f, conf_f), ctx.where(b, tm["sp"]),
                       "the interface setting, else the top-level default")
         for var in ("Mtu", "Pref64", "SourceLLAddr", "Prefix"):
@@ -296,6 +320,22 @@ def _r1(ctx):
                         if t[0] == "agg" and t[2] == "Some":
                             rp = resolve_path(P, c, t[3][0][1])
                             if rp is not None and param_ty(rp[0], rp[1]) == "std::net::Ipv6Addr" and rp[2] == () and edge_dominated(cc, te, bb):
+                                okk = True
+        if not okk:
+            # the same replacement in a hand-written loop: on the edge where the entry is the unspecified address, what is pushed is the
+            # interface address parameter
+            for c in P.family(f):
+                Tc = terms(P, c)
+                cc = cfg_of(c)
+
+                def m2(d):
+                    return d[0] == "call" and (str(d[1]).endswith("Ipv6Addr::is_unspecified") or (str(d[1]).endswith("::eq") and any(
+                        y[0] == "const" and len(y) > 2 and str(y[2]).endswith("Ipv6Addr::UNSPECIFIED") for a in d[2] for y in subterms(a))))
+                for sbb, d, te, fe in bool_switches(P, c, m2):
+                    for b3, t3 in c.calls():
+                        if (callee_name(t3) or "").endswith("::push") and len(t3["args"]) == 2 and edge_dominated(cc, te, b3):
+                            rp = resolve_path(P, c, norm(Tc.call_args(b3)[1]))
+                            if rp is not None and param_ty(rp[0], rp[1]) == "std::net::Ipv6Addr" and rp[2] == ():
                                 okk = True
         ctx.check(okk, "R1", "rdnss:$self6<-interface-address", ctx.where(b), "the :: placeholder in dns-servers is replaced by the interface's own address")
 
@@ -369,6 +409,17 @@ def _encoder(ctx, b):
                     y[0] == "call" and str(y[1]).rsplit("::", 1)[-1] in ("as_secs", "as_millis") for y in subterms(a)):
                 tf += 1
                 ctx.ok("R2", "conversion:checked-with-saturation@" + _arm_name(b, cfg, T, bb), ctx.where(b, tm["sp"]))
+    # ... and so is a try_from whose result is taken apart by hand (`match u32::try_from(secs) { Ok(s) => s, Err(_) => u32::MAX }`): a
+    # checked conversion cannot wrap, whatever is done with the failure
+    seen_tf = {bb for bb, tm in b.calls() if (callee_name(tm) or "").rsplit("::", 1)[-1] == "unwrap_or"}
+    for bb, tm in b.calls():
+        n2 = callee_name(tm) or ""
+        if "try_from" in n2.rsplit("::", 1)[-1] and tm["args"]:
+            a = norm(T.call_args(bb)[0])
+            used_by_unwrap_or = any(any(y[0] == "call" and len(y) > 3 and y[3] == bb for y in subterms(norm(T.call_args(ub)[0]))) for ub in seen_tf)
+            if not used_by_unwrap_or and any(y[0] == "call" and str(y[1]).rsplit("::", 1)[-1] in ("as_secs", "as_millis") for y in subterms(a)):
+                tf += 1
+                ctx.ok("R2", "conversion:checked@" + _arm_name(b, cfg, T, bb), ctx.where(b, tm["sp"]))
     ctx.floor("R2", "lifetime/timer conversions", n + tf, 8)
 
     # ---- per option arms
